@@ -265,13 +265,26 @@ func wrappersOf(p *packages.Package, f *ast.File) []*ast.FuncLit {
 func wrapperCalls(p *packages.Package, f *ast.File) []*ast.CallExpr {
 	var out []*ast.CallExpr
 	var inside []*ast.FuncLit
+	// the generator's wrapper: func() error { <prologue>; return func() (err error) { ... cff.NewScheduler ... }() }()
+	// (a user's own immediately-invoked literal around a directive - go func(){...}(), defer func(){...}() - is not one)
 	isSched := func(fl *ast.FuncLit) bool {
+		if fl.Type.Results == nil || len(fl.Type.Results.List) != 1 || len(fl.Body.List) == 0 {
+			return false
+		}
+		ret, ok := fl.Body.List[len(fl.Body.List)-1].(*ast.ReturnStmt)
+		if !ok || len(ret.Results) != 1 {
+			return false
+		}
+		ic, ok := ret.Results[0].(*ast.CallExpr)
+		if !ok || len(ic.Args) != 0 {
+			return false
+		}
+		inner, ok := ic.Fun.(*ast.FuncLit)
+		if !ok {
+			return false
+		}
 		found := false
-		ast.Inspect(fl.Body, func(n ast.Node) bool {
-			if inner, ok := n.(*ast.FuncLit); ok && inner != fl {
-				// allow the outer/inner shape: return func() (err error) {...}()
-				return true
-			}
+		ast.Inspect(inner.Body, func(n ast.Node) bool {
 			if c, ok := n.(*ast.CallExpr); ok {
 				if fn := astx.Callee(p.TypesInfo, c); fn != nil && fn.Pkg() != nil && fn.Pkg().Path() == cffPath && fn.Name() == "NewScheduler" {
 					found = true
